@@ -320,13 +320,16 @@ def coq_opts(o):
 
 
 PREAMBLE = """From Coq Require Import List NArith Arith Bool.
-From PP Require Import Model.Str Model.Diagram Gen.GenDiagram.
+From PP Require Import Model.Str Model.Diagram Model.DiagramEx Model.DiagramClass Gen.GenDiagram.
 Import ListNotations.
 Definition run (G : graph) (o : opts) (fuel : nat) :=
   match to_railroad G o REPEAT_FIX 0 fuel with
   | (Ok l, st) => (1, map (fun d => (od_name d, od_index d, od_bookmark d, od_item d)) l, c_maxdepth st, c_err st)
   | (OutOfFuel, st) => (0, [], c_maxdepth st, c_err st)
   end.
+(* the result, and whether the graph belongs to the class of the positive theorems (Props/C20.v C20_*_partial on dag_class):
+   the SAME definition the theorems quantify over, evaluated on the dumped graph (node 0 is the root) *)
+Definition runc (G : graph) (o : opts) (fuel : nat) := (run G o fuel, dag_class G o 0).
 """
 
 
@@ -335,7 +338,7 @@ def model_runs(name, jobs, timeout=900):
     out = []
     SH = 250
     for s in range(0, len(jobs), SH):
-        exprs = ["run %s %s %d" % (coq_graph(n), coq_opts(o), FUEL) for n, o in jobs[s:s + SH]]
+        exprs = ["runc %s %s %d" % (coq_graph(n), coq_opts(o), FUEL) for n, o in jobs[s:s + SH]]
         res = vlib.coq_eval_terms("%s_%d" % (name, s // SH), PREAMBLE, exprs, timeout=timeout)
         out.extend(canon_model(r) for r in res)
     return out
@@ -375,8 +378,8 @@ def canon_item_model(t):
 
 
 def canon_model(r):
-    ok, ds, depth, err = r
-    return {"ok": bool(ok), "depth": depth, "err": bool(err),
+    ok, ds, depth, err, inclass = r        # Coq prints ((a, b, c, d), e) as (a, b, c, d, e)
+    return {"ok": bool(ok), "depth": depth, "err": bool(err), "inclass": bool(inclass),
             "diagrams": [(S(d[0]), d[1], S(d[2]), canon_item_model(d[3])) for d in ds]}
 
 
@@ -623,6 +626,8 @@ def enumerated_shapes():
     sh.append(("shared-named-thrice", [L("a"), L("b"), N("And", 0, 1, name="ab"), N("Opt", 2), N("And", 2, 3, 2)], 4))
     sh.append(("shared-named-token", [dict(W, name="word"), N("Opt", 0), N("And", 0, 1, 0)], 2))
     sh.append(("shared-named-shallow", [L("a"), N("Opt", 0, name="maybe-a"), N("And", 1, 1)], 2))
+    sh.append(("dag-shared-named", [L("a"), dict(W, name="word"), N("Opt", 0), N("And", 2, 1, name="item"), N("Group", 3),
+                                    N("ZeroOrMore", 4), N("MatchFirst", 3, 5), N("And", 6, 3, 1)], 7))
     sh.append(("same-name-two-elements", [dict(W, name="x"), L("q"), N("And", 0, 1), N("Opt", 2), N("And", 0, 3, name="x")], 4))
     sh.append(("same-name-siblings", [L("a"), L("b"), N("Opt", 0, name="n"), N("Opt", 1, name="n"), N("And", 2, 3)], 4))
     # --- every class
@@ -898,6 +903,33 @@ def classify(ctx, case, nodes, unmodelled, impl, model, agreed):
     return len(iv)
 
 
+def in_class_check(ctx, case, nodes, impl, m):
+    """the tie of the positive theorems (C20_terminates_partial / _links_resolve_partial / _root_first_class_partial):
+    Coq evaluated `dag_class` on this very graph; on a graph of the class the implementation-side oracle must find NO
+    violation of any kind (an unknown key, so the check alarms), and the model must behave as the theorems say"""
+    ctx.stat("class_dag:modelled_cases")
+    if not m["inclass"]:
+        return
+    ctx.stat("class_dag:in_class")
+    if len(impl["diagrams"]) >= 2:
+        ctx.stat("class_dag:in_class_with_subdiagrams")
+    bad = oracle(nodes, case["opts"], impl)
+    for cls, detail in bad:
+        ctx.violation("in-class:%s:%s" % (cls, case_id(case)),
+                      "graph of the class dag_class (positive theorems apply) but the implementation violates C20: %s on "
+                      "grammar %s opts=%s streamline=%s: %s" % (cls, case["label"], json.dumps(case["opts"], sort_keys=True),
+                                                                 case["streamline"], detail), {"kind": "case", "case": case})
+    if not bad:
+        ctx.stat("class_dag:in_class_clean")
+    # what the theorems state about the model on this graph
+    if not m["ok"] or m["depth"] > len(nodes) + 1:
+        ctx.broken("correspondence:class model run contradicts C20_terminates_partial on %s (ok=%s depth=%d nodes=%d)" % (
+            case["label"], m["ok"], m["depth"], len(nodes)))
+    elif oracle(nodes, case["opts"], model_as_output(m)):
+        ctx.broken("correspondence:class model output violates the property on in-class graph %s: %r" % (
+            case["label"], oracle(nodes, case["opts"], model_as_output(m))))
+
+
 def case_id(case):
     import hashlib
     return hashlib.sha1(json.dumps([case["spec"], case["root"], case["opts"], case["streamline"]],
@@ -958,6 +990,8 @@ def run_cases(ctx, cases, name, html=True):
                     c["label"], json.dumps(c["opts"], sort_keys=True), c["streamline"], dis[:600]))
                 ctx.stat("disagreements")
         nv = classify(ctx, c, nodes, unmodelled, impl, m, m is not None and dis is None)
+        if m is not None:
+            in_class_check(ctx, c, nodes, impl, m)
         cyc = any(n["kind"] == "KFwd" for n in nodes)
         nontriv = cyc or len(impl["diagrams"]) >= 2 or len(nodes) >= 6
         ctx.case(case_id(c), nontriv, dis is None)
@@ -1088,6 +1122,9 @@ def correspond(ctx):
     ctx.coverage_extra["scope"] = "%d enumerated shapes x %d option tuples (+ streamlined), %d random graphs x %d option tuples" % (
         len(enumerated_shapes()), len(FIXED_OPTS), n_random, n_opts)
     ctx.coverage_extra["model_fuel"] = FUEL
+    ctx.coverage_extra["class_dag"] = ("dag_class (Model/DiagramClass.v) evaluated in Coq on every modelled graph; on in-class "
+                                       "graphs any oracle violation of the implementation alarms (key in-class:...); counts "
+                                       "in stats class_dag:*")
     ctx.coverage_extra["repaired_tree"] = repaired_tree()
 
 
